@@ -97,6 +97,23 @@ class VirtualLoopPolicy(asyncio.DefaultEventLoopPolicy):
         return self._factory()
 
 
+class _StrictlyIncreasing:
+    """The node pool keeps dead nodes in a priority queue of (time.time() + timeout, node) tuples; two nodes marked dead in the same virtual
+    instant would be ordered by comparing the node objects (TypeError). A real clock practically never returns the same value twice, so this
+    one does not either: every reading is ten microseconds later than the last."""
+
+    def __init__(self, shim):
+        self._shim = shim
+        self._n = 0
+
+    def time(self):
+        self._n += 1
+        return self._shim.time() + self._n * 1e-5  # (a double near 1.7e9 resolves about 2.4e-7)
+
+    def __getattr__(self, name):
+        return getattr(self._shim, name)
+
+
 def install_time_shims(shim, modules=None):
     """Installs `shim` as the `time` attribute of the rally modules that read the clock on the load-generation path.
     Returns an undo callable."""
@@ -123,7 +140,7 @@ def install_time_shims(shim, modules=None):
         extra.append((aiohttp.connector, "monotonic", aiohttp.connector.monotonic))
         aiohttp.connector.monotonic = shim.monotonic
         extra.append((elastic_transport._node_pool, "time", elastic_transport._node_pool.time))
-        elastic_transport._node_pool.time = shim
+        elastic_transport._node_pool.time = _StrictlyIncreasing(shim)
 
     def undo():
         for m, t in saved:
